@@ -24,7 +24,7 @@ InputsC == [p \in Honest |-> 1 + (p % 2)]
 QFloor == (2*N) \div 3
 \* state of a member that was started and (if it has one) has read its input; the leader of round 1 has
 \* broadcast its PRE-PREPARE (Start + Input collapsed: both are local steps that commute with everything else)
-StartedSt(p) == [InitSt EXCEPT !.started = TRUE, !.ppjSet = (Leader(1) = p), !.input = Inputs[p], !.timer = 1]
+StartedSt(p) == [InitSt EXCEPT !.started = TRUE, !.ppjSet = (Leader(1) = p), !.input = Inputs[p], !.timer = 1, !.narm = 1]
 FirstPP == IF Leader(1) \in Honest \ Silent /\ Inputs[Leader(1)] # 0
              THEN {Full(Base("PP", Leader(1), 1, Inputs[Leader(1)], 0, 0), {})} ELSE {}
 MCInit == /\ IF PreStarted
